@@ -23,7 +23,7 @@ func SuggestionList(input string, options []string) []string {
 		}
 	}
 
-	sort.Slice(results, func(i, j int) bool {
+	sort.SliceStable(results, func(i, j int) bool {
 		return optionsByDistance[results[i]] < optionsByDistance[results[j]]
 	})
 	return results
